@@ -247,8 +247,6 @@ func run(ci any, r *mon.Rec) {
 		return
 	}
 
-	var clock atomic.Int64
-	_ = clock
 	var wg sync.WaitGroup
 	var vmu sync.Mutex
 	var viols []string
@@ -373,7 +371,24 @@ func run(ci any, r *mon.Rec) {
 			verify(held, "re-checked at the end")
 		}(g)
 	}
-	callers.Wait()
+	// watchdog: every Do against this transport completes within microseconds to a few client timeouts; callers still
+	// blocked after 45 s are reported with the goroutine dump (e.g. a lock that is never released)
+	allDone := make(chan struct{})
+	go func() { callers.Wait(); close(allDone) }()
+	select {
+	case <-allDone:
+	case <-time.After(45 * time.Second):
+		buf := make([]byte, 1<<16)
+		n := runtime.Stack(buf, true)
+		select {
+		case <-allDone:
+		case <-time.After(15 * time.Second):
+			close(stop)
+			r.Violate(c, "calls-never-return", a, fmt.Sprintf("%s: after 60 s %d calls had completed and the remaining callers were still blocked in Do; goroutines:\n%s", ctxs, okCalls.Load()+errCalls.Load(), string(buf[:n])))
+			finishConns(c, r, conns, a, ctxs, false)
+			return
+		}
+	}
 	close(stop)
 	wg.Wait()
 	_ = cl.Close()
